@@ -256,7 +256,7 @@ Definition ret_okb (tr : list ev) (r : ret) : bool :=
 Inductive sfev :=
 | SfTry (c : nat)                 (* caller c executes mergeMu.TryLock *)
 | SfCall (c : nat)                (* caller c's Merge performs a store call *)
-| SfRet (c : nat) (inprog : bool).(* caller c's Merge returns; inprog: with ErrMergeInProgress *)
+| SfRet (c : nat) (inprog : bool). (* caller c's Merge returns; inprog: with ErrMergeInProgress *)
 
 Inductive pc := PRun | PRefused.
 
